@@ -46,7 +46,9 @@ HOSTILE = ['"abc', "'", '"""', "(", ")", "[", "]", "1...", "...", "…", "--1", 
            # numbers Python can hold but not print (more than 4300 digits), or not convert (exponent beyond a C int)
            "0x" + "f" * 4000, "1...0x" + "f" * 4000, "0...1e-9999999999",
            # sound ranges made of several parts, one of them open at its lower end: values in the gap get a message
-           "...1, 3...", "...-1, 10...99", "...57, 65..."]
+           "...1, 3...", "...-1, 10...99", "...57, 65...",
+           # a leap second: time.strptime() takes it, datetime does not
+           "23:59:60", "1999-12-31 23:59:60"]
 RULE_TEXT = (
     "fault enumeration: sweep of (base CID or data table, row, column, hostile value) single-cell replacements (see "
     "sweep_note) plus seeded scenarios with two hostile cells at once or one container fault (truncate / bitflip / "
